@@ -510,7 +510,39 @@ def explore_abort() -> Dict[str, Any]:
                         size=1, replay=dict(kind="abort", case=list(case), engine=engine)))
             finally:
                 d.close()
-    res["samples"].append(dict(family="ABORT", cases=len(abort_cases())))
+    # ---- an abort must not take earlier, committed work with it: events raised by a transition that completed are still
+    #      processed after a LATER event of the same drain aborted
+    for engine in ENGINES:
+        cfg = {"id": "m", "initial": "a", "states": {
+            "a": {"on": {"GO": {"target": "b", "actions": [A.raise_("R1"), A.raise_("R2"), "mk:go"]}}},
+            "b": {"on": {"R1": {"target": "c", "actions": ["nope"]}, "R2": {"actions": ["mk:r2"]}, "NOP": {"actions": ["mk:nop"]}}},
+            "c": {}}}
+        h = Harness(cfg, with_plugin=True, threads=True, budget=3000, missing_actions=["nope"])
+        d = h.driver(engine)
+        try:
+            res["executions"] += 1
+            res["evaluations"] += 1
+            res["distinct_count"] += 1
+            d.start()
+            d.send("GO")
+            d.settle()
+            d.send("NOP")
+            d.settle()
+            names = [e[1] for e in d.rec.log if e[0] == "A"]
+            conf = d.observe()[0]
+            probs = []
+            if names.count("mk:r2") != 1:
+                probs.append(("abort-dropped-queued-events", f"R2 was raised by the committed GO transition before R1's handler aborted; it was handled {names.count('mk:r2')} times (actions {names})"))
+            if tuple(conf) != ("m", "m.b"):
+                probs.append(("configuration-not-restored", f"{conf}"))
+            if names.count("mk:nop") != 1:
+                probs.append(("next-event-not-handled", f"{names}"))
+            for clause, detail in probs:
+                res["violations"].append(dict(signature=f"C07|{clause}|{engine}|later-event-of-the-drain", clause=clause,
+                                              what=f"{engine}: {clause}: {detail}", size=1, replay=dict(kind="abort", case=["raise-then-abort"], engine=engine)))
+        finally:
+            d.close()
+    res["samples"].append(dict(family="ABORT", cases=len(abort_cases()) + 1))
     return res
 
 
